@@ -534,6 +534,21 @@ theorem rxn_read_write_radicals_sorted (natoms : Str → Nat) (R A P : List WMol
           (R'.map Prod.snd) (A'.map Prod.snd) (P'.map Prod.snd) :=
   read_format_radW_sorted natoms R A P hR hA hP hne hsp hn
 
+/-- **strict_reader_accepts_written.** With `ignore=False` (empty `.`-pieces are `ValueError` instead of being skipped)
+    the reader does on every written text — `!c` or sorted, any roles, salts, marks — exactly what the default reader
+    does (`readRxnRadOpt` = the driver's `readrad` op), so both round-trip theorems hold for the strict reader as well. -/
+theorem strict_reader_accepts_written (natoms : Str → Nat) (keep : Bool) (R A P : List WMol)
+    (hR : WrittenOK (R.map Prod.fst)) (hA : WrittenOK (A.map Prod.fst)) (hP : WrittenOK (P.map Prod.fst))
+    (hsp : ∀ m ∈ R ++ A ++ P, ∀ f ∈ m.1, ∀ c ∈ f, isSpace c = false) :
+    readRxnRadOpt false natoms (formatRxn keep false (R.map sigOfW) (A.map sigOfW) (P.map sigOfW)) =
+      readRxnRad natoms (formatRxn keep false (R.map sigOfW) (A.map sigOfW) (P.map sigOfW)) :=
+  readRxnRadOpt_format natoms keep R A P hR hA hP hsp
+
+/-- the strict reader does reject what the default reader repairs: `C..O>>` -/
+example : readRxnRadOpt false (fun _ => 1) [67, 46, 46, 79, 62, 62] = .error "ValueError" ∧
+    readRxnRadOpt true (fun _ => 1) [67, 46, 46, 79, 62, 62] = .roles [[67], [79]] [] [] [[false], [false]] [] [] := by
+  decide
+
 /-- non-trivial instance: `[Na].C>O>` — a two-component reactant whose first atom is a radical, a reagent, no products
     (written as `[Na].C>O> |^1:0,f:0.1|`): the hypotheses hold, so the text reads back to the roles and the flags -/
 example :
